@@ -35,7 +35,12 @@ func Render(w io.Writer, tm *t.Map, src []t.Token, comments []string) (err error
 		return nil
 	}
 
-	const maxIndent = 0xFFFF
+	// maxIndent is about twice ast.MaxBodyDepth: deeper nesting is rejected
+	// by the rest of the toolchain anyway. The indentation makes the output
+	// size proportional to (the number of lines times the nesting depth), so
+	// a much larger limit lets a small input (nothing but "if x {" lines)
+	// produce gigabytes of white space.
+	const maxIndent = 0x1FF
 	indent := 0
 	buf := make([]byte, 0, 1024)
 	commentLine := uint32(0)
